@@ -11,7 +11,7 @@
 //!   l a            -> <bytes of OsStr::to_string_lossy a>       (std; checks the UTF-8 model)
 //!   u x            -> 1 | 0                                     (std::str::from_utf8(x).is_ok())
 //!   sp             -> arg::verif::special_chars()
-//! C10 commands: see the functions `cmd_w`, `cmd_r`, `cmd_rt` below.
+//! C10 commands (w, wj, r, pn, pd, hs): see the comment above `parse_report` below.
 
 use std::ffi::OsString;
 use std::io::{BufRead, Write};
